@@ -1,7 +1,7 @@
 \* exhaustive: 2 table variants x 2 suffixes x 3^4 compositions; every law for every case
 CONSTANTS NG = 2  NGam = 2  Variants = {1, 2}
 CONSTANT DensSeq <- DensQuick
-CONSTANT PairDens <- PairQuick
+CONSTANT PairSet <- PairQuick
 INIT Init
 NEXT Next
 INVARIANT TypeOK
